@@ -727,6 +727,8 @@ class MethodRowsSuite:
     def __init__(self, with_calls=True, with_reset=False):
         self.with_calls = with_calls
         self.with_reset = with_reset
+        if not with_calls and not with_reset:
+            self.name = "plain_method_rows"
 
     def one(self, rng, with_calls):
         stage = rng.randint(3, 16)
@@ -838,6 +840,20 @@ class MethodRowsSuite:
             return f"row {i} differs from the call rule of the reference interpreter"
         return None
 
+    def oracle_C03_places(self, case, out):
+        """every place NAMED in the notation of a change is made (a legal change that swaps a bell out of a named
+        place is still wrong): the rows are those of the textbook reading of each change"""
+        if "rows" not in out:
+            return None
+        want = self._reference(case, out)
+        if want is None:
+            return None
+        got = [r for r, _ in out["rows"]]
+        for i, (g, w) in enumerate(zip(got, want)):
+            if g != w:
+                return f"row {i} is {g}; making the places its change names gives {w}"
+        return None
+
     def oracle_C05(self, case, out):
         if "fresh_rows" not in out:
             return None
@@ -847,7 +863,10 @@ class MethodRowsSuite:
         return None
 
     oracle_C01 = GenHistorySuite.oracle_C01
-    oracle_C03 = GenHistorySuite.oracle_C03
+
+    def oracle_C03(self, case, out):
+        # legal changes (nobody moves more than one place) AND the named places made
+        return GenHistorySuite.oracle_C03(self, case, out) or self.oracle_C03_places(case, out)
 
 
 
